@@ -190,7 +190,7 @@ def gen_spec(rng, n_zones=None, allow_fed=True, ext=None, maxtime=None, grid=Tru
     return spec
 
 
-def gen_federation_with_region_asset_markets(rng, maxtime=None):
+def gen_federation_with_region_asset_markets(rng, maxtime=None, all_tobin=False):
     """One federation whose money and deposit markets are declared in a region while the issuer sits in the central
     country; interest-bearing deposits held by a regional household; a non-zero interest rate from the start."""
     spec = None
@@ -211,6 +211,11 @@ def gen_federation_with_region_asset_markets(rng, maxtime=None):
         hh['portfolio'] = 'share'
         hh['share'] = rng.choice([0.25, 0.5, 0.6])
         hh['F0'] = hh['F0'] or float(rng.randint(40, 120))
+    if all_tobin:
+        for c in regs:
+            c['hh']['portfolio'] = 'tobin'
+            c['hh']['F0'] = c['hh']['F0'] or float(rng.randint(40, 120))
+            c['hh'].setdefault('share', 0.5)
     return spec
 
 
@@ -253,6 +258,8 @@ def gov_code(form):
 
 class Built(object):
     def __init__(self):
+        self.shared_weightings = {}
+        self.weightings_reused = 0
         self.model = None
         self.countries = {}      # key -> Country
         self.sectors = {}        # (key, role) -> Sector
@@ -520,7 +527,14 @@ def _build(spec, model=None, holder=None, order_seed=None, codes=None, ckey_map=
                     hh.AddVariable('L2', 'lambda_2', '.01')
                     r = dep.GetVariableName('r')
                     b.names_handed.append((r, dep, 'r'))
-                    hh.GenerateAssetWeighting({'DEP': 'L0 + L1 * {0} - L2 * (AfterTax/F)'.format(r)}, 'MON')
+                    # households of one zone hand the SAME weighting dict object to the library (a caller re-using its
+                    # portfolio rule)
+                    wkey = (gkey, r)
+                    if wkey not in b.shared_weightings:
+                        b.shared_weightings[wkey] = {'DEP': 'L0 + L1 * {0} - L2 * (AfterTax/F)'.format(r)}
+                    else:
+                        b.weightings_reused += 1
+                    hh.GenerateAssetWeighting(b.shared_weightings[wkey], 'MON')
                     hh.AddInitialCondition('AfterTax', hs['F0'])
         if dem_terms:
             gov.SetEquationRightHandSide('DEM_GOOD', ' + '.join(dem_terms))
